@@ -477,9 +477,9 @@ def gen_bursts(rng, sizes, kind="burst"):
 
 def generate(rng, tier):
     if tier == "thorough":
-        cases = gen_pairs(rng, 500) + gen_mini(rng, 60) + gen_known(rng) + gen_bursts(rng, [2, 3, 4, 6, 8, 12, 16, 24, 32] * 7 + [32, 32])
+        cases = gen_pairs(rng, 1600) + gen_mini(rng, 100) + gen_known(rng) + gen_bursts(rng, [2, 3, 4, 6, 8, 12, 16, 24, 32] * 16 + [32] * 6)
     else:
-        cases = gen_pairs(rng, 22) + gen_mini(rng, 16) + gen_known(rng) + gen_bursts(rng, [2, 5, 9, 16, 32])
+        cases = gen_pairs(rng, 50) + gen_mini(rng, 16) + gen_known(rng) + gen_bursts(rng, [2, 3, 5, 9, 16, 24, 32])
     return cases
 
 
